@@ -149,11 +149,16 @@ class _TracingReader(object):
     """what open(p, 'rb') returns under the virtual root: the real file object with every read recorded and an
     optional EIO armed at a byte offset"""
 
-    def __init__(self, f, fs, simpath, eio_at=None):
+    def __init__(self, f, fs, simpath, eio_at=None, raw=False):
         self._f = f
         self._fs = fs
         self._p = simpath
         self._eio_at = eio_at
+        # an UNBUFFERED handle (buffering=0) is the bare read(2): it may return fewer bytes than asked for before the end
+        # of the file (network file systems, pipes, signals) - a buffered handle never does, so only raw handles get short
+        # counts here; the sizes follow a fixed pattern, so a run stays a pure function of its op list
+        self._raw = raw
+        self._nreads = 0
 
     def read(self, n=-1):
         pos = self._f.tell()
@@ -164,6 +169,15 @@ class _TracingReader(object):
                 self._fs.fired("F6.eio_at_offset")
                 self._fs.trace.append(("read_eio", self._p, pos, n))
                 raise OSError(errno.EIO, "Input/output error (injected)", self._p)
+        if self._raw and n is not None and n > 1:
+            cap = (65536, n, 100000, 1, 524288, 3)[self._nreads % 6]
+            self._nreads += 1
+            if cap < n:
+                chunk = self._f.read(cap)
+                if len(chunk) == cap:
+                    self._fs.fired("F6.short_read_raw")
+                self._fs.trace.append(("read", self._p, pos, n, len(chunk)))
+                return chunk
         chunk = self._f.read(n)
         self._fs.trace.append(("read", self._p, pos, n, len(chunk)))
         return chunk
@@ -380,7 +394,8 @@ class SimFS(object):
             eio_at = a.get("offset", 0)
         self.trace.append(("open_r", path, mode))
         if "b" in mode:
-            return _TracingReader(f, self, path, eio_at)
+            buffering = kwargs.get("buffering", args[0] if args else -1)
+            return _TracingReader(f, self, path, eio_at, raw=(buffering == 0))
         if eio_at is not None:
             return _FaultyText(f, self, path)
         return f
